@@ -61,6 +61,11 @@ impl LeastSquaresProblem<f64, Dyn, U3> for PointsToCurve<'_> {
     fn set_params(&mut self, x: &Vector<f64, U3, Self::ParameterStorage>) {
         self.params.set(x);
         self.move_points();
+        #[cfg(engeom_verif)]
+        crate::verif_trace::emit(format!(
+            "{{\"ev\":\"set\",\"x\":{}}}",
+            crate::verif_trace::floats(self.params.x().as_slice())
+        ));
     }
 
     fn params(&self) -> Vector<f64, U3, Self::ParameterStorage> {
@@ -73,6 +78,13 @@ impl LeastSquaresProblem<f64, Dyn, U3> for PointsToCurve<'_> {
             res[i] = c.scalar_projection(p);
         }
 
+        #[cfg(engeom_verif)]
+        crate::verif_trace::emit(format!(
+            "{{\"ev\":\"res\",\"x\":{},\"r\":{}}}",
+            crate::verif_trace::floats(self.params.x().as_slice()),
+            crate::verif_trace::floats(res.as_slice())
+        ));
+
         Some(res)
     }
 
@@ -83,6 +95,12 @@ impl LeastSquaresProblem<f64, Dyn, U3> for PointsToCurve<'_> {
             let values = point_surface_jacobian(p, c, &self.params);
             copy_jacobian(&values, &mut jac, i);
         }
+
+        #[cfg(engeom_verif)]
+        crate::verif_trace::emit(format!(
+            "{{\"ev\":\"jac\",\"x\":{}}}",
+            crate::verif_trace::floats(self.params.x().as_slice())
+        ));
 
         Some(jac)
     }
